@@ -38,7 +38,8 @@ type Tap struct {
 	w        *World
 	Commits  []*TapCommit
 	Sinks    []commit.Logger
-	failAt   int // inject an Append error at the n-th commit (0 = never)
+	failAt   int  // inject an Append error at the n-th commit and every later one (0 = never)
+	failOnce bool // ... at the n-th commit only
 	onAppend func(tc *TapCommit, c commit.Commit)
 }
 
@@ -50,13 +51,23 @@ func (t *Tap) Append(c commit.Commit) error {
 	if t.onAppend != nil {
 		t.onAppend(tc, c)
 	}
+	var first error
 	for _, s := range t.Sinks {
-		if err := s.Append(c); err != nil {
-			return err
+		if err := s.Append(c); err != nil && first == nil {
+			first = err
 		}
 	}
-	return nil
+	if t.failAt > 0 && len(t.Commits) >= t.failAt && (!t.failOnce || len(t.Commits) == t.failAt) {
+		// fault: the writer of the change stream reports an error (a full disk, a broken pipe)
+		w.stats.fault("stream-writer-error")
+		if first == nil {
+			first = errStreamWriter
+		}
+	}
+	return first
 }
+
+var errStreamWriter = fmt.Errorf("colsim: injected error of the change stream's writer")
 
 // decodeCommit reads the commit's block out of every buffer with a private reader.
 func decodeCommit(c commit.Commit) []TapBuf {
